@@ -18,7 +18,7 @@ partial def loop (h : IO.FS.Stream) (w : World) (debug snap : Bool) (dead : Bool
     -- C18: the model's verdict on `Q: ReadOnlyQuery`
     IO.println line
     match Parse.parseQuery (line.drop 5).toString with
-    | some q => IO.println s!"> readonly={q.roGate}"
+    | some q => IO.println s!"> readonly={q.readOnlyGate}"
     | none => IO.println "> bad-op"
     loop h w debug snap dead inv
   else if dead then
